@@ -20,7 +20,7 @@ import (
 
 type TxnSpec struct {
 	Stmts      []dbh.Stmt `json:"stmts"`
-	End        string     `json:"end"`                  // "commit" | "abort" | "open" (left in flight; only as last transactions)
+	End        string     `json:"end"`                  // "commit" | "abort" | "open" (left in flight until the next crash restart or the end of the history)
 	Checkpoint bool       `json:"checkpoint,omitempty"` // forced checkpoint after the transaction finished
 	Reopen     string     `json:"reopen,omitempty"`     // after the transaction: "crash" (files closed without flush) or "clean" (Shutdown), then reopen and continue
 }
@@ -133,6 +133,9 @@ func Execute(h *History, st *Stats) (*Run, *vf.Failure) {
 			if t.Done { // the engine aborted the transaction (already rolled back)
 				engineAborted = true
 				st.EngineAborted++
+				if len(open) > 0 {
+					st.Classes["conflict-abort"] = true
+				}
 				noteLoser(run, before, work, s)
 				break
 			}
@@ -156,6 +159,9 @@ func Execute(h *History, st *Stats) (*Run, *vf.Failure) {
 			t.Commit()
 			info.ret = run.Rec.Mark(fmt.Sprintf("commit-return %d", ti))
 			info.committed = true
+			if len(open) > 0 {
+				st.Classes["commit-while-another-transaction-is-in-flight"] = true
+			}
 			cur = work
 			info.state = cur.Clone()
 			run.States = append(run.States, info.state)
@@ -177,7 +183,11 @@ func Execute(h *History, st *Stats) (*Run, *vf.Failure) {
 			run.Rec.Mark("checkpoint-return")
 			st.Checkpoints++
 		}
-		if spec.Reopen != "" && len(open) == 0 {
+		if spec.Reopen == "crash" || (spec.Reopen != "" && len(open) == 0) {
+			if len(open) > 0 {
+				st.Classes["crash-restart-inside-history-with-transactions-in-flight"] = true
+			}
+			open = nil // transactions in flight at a crash restart are losers of that recovery
 			// the same recorder keeps recording across the restart: the restart's own I/O (recovery page writes,
 			// log truncation, re-seeded records) becomes part of the trace, and so do crash points inside it
 			run.Rec.Mark("stop " + spec.Reopen)
